@@ -11,6 +11,12 @@
 //     zones), a destination that cannot hold the section bytes is refused, a destination of code_size() or more
 //     is accepted;
 //   * code_size() before relocate_to_base() is never smaller than after it.
+// Later additions (all drawn from side streams, the tables of earlier rounds are unchanged): section flags and names are
+// attributes that must be recorded and must not influence anything; `.text` may have a virtual size of its own;
+// sections_by_order() is sorted by (order, id) and offsets do not decrease along it; with kPadSectionBuffer every
+// non-section byte of the image is zero (also in JitRuntime memory, which is dirtied beforehand); the image is copied
+// before any relocation as well; relocate_to_base() runs without a summary in a quarter of the tables; half of the
+// tables keep their null buffers; the span JitRuntime::add keeps must cover the image and survive a neighbour.
 #include <asmjit/x86.h>
 #include <asmjit/a64.h>
 #include "vcommon.h"
@@ -82,6 +88,16 @@ struct Counters {
   uint64_t bytes_section = 0, bytes_padding = 0, bytes_beyond = 0, bytes_slot = 0, bytes_jit = 0;
   uint64_t canary_checks = 0, null_buffer_sections = 0;
   uint64_t max_sections = 0, max_image = 0;
+  // round 11 dimensions
+  uint64_t text_virt_only = 0, text_virt_larger = 0, text_virt_smaller = 0, text_overflow = 0;
+  uint64_t flags_checked = 0, flags_nonzero = 0, flag_combo[16] {};
+  uint64_t by_order_sequences = 0, equal_order_pairs = 0, equal_order_nonempty_pairs = 0;
+  uint64_t bytes_align_pad = 0, align_pad_tables = 0;
+  uint64_t pre_reloc_probes = 0, pre_reloc_tables_with_sites = 0, reloc_null_summary = 0, reloc_null_summary_shrunk = 0;
+  uint64_t null_buffers_left = 0, null_buffer_tables_left = 0;
+  uint64_t jit_span_queried = 0, jit_predirtied = 0, jit_predirtied_reused = 0, jit_small_allocs = 0, jit_align_pad_bytes = 0, jit_shrunk_spans = 0;
+  uint64_t names_looked_up = 0, names_duplicate = 0, names_absent_refused = 0;
+  uint64_t reflatten_identical = 0, reflatten_empty_moved = 0, reflatten_differs = 0;
 };
 static Counters C;
 static std::unordered_set<uint64_t> g_distinct_all, g_distinct_nontrivial;
@@ -103,6 +119,7 @@ struct SecSpec {
   uint32_t align = 0; int32_t order = 0; int kind = K_EMPTY;
   std::vector<Item> items; uint64_t vsize = 0; bool set_vsize = false;
   bool bad_name = false, bad_align = false;
+  uint32_t flags = 0;          // SectionFlags given to new_section (must not influence layout or bytes)
 };
 enum { OP_NEW, OP_FILL, OP_ENSURE_ADDRTAB };
 struct Step { int op; int idx; };
@@ -172,8 +189,14 @@ static void gen_items(Rng& r, SecSpec& s, int arch, int kind, int size_regime, b
   }
 }
 
+struct Item;
+static void expected_encoding(int arch, const Item& it, std::vector<uint8_t>& out);
+
 static TableSpec gen_table(Rng& r, bool allow_jit) {
   TableSpec t;
+  // Side stream for the dimensions added later (section flags, .text with a virtual size): the main stream and with it
+  // every table of earlier rounds stays what it was.
+  Rng q(r.s ^ 0x5EC7105F1A65ull);
   uint64_t a = r.below(100);
   t.arch = a < 60 ? A_X64 : a < 75 ? A_X86 : A_A64;
   uint64_t w = r.below(100);
@@ -206,6 +229,15 @@ static TableSpec gen_table(Rng& r, bool allow_jit) {
     uint64_t k = r.below(100);
     s.kind = k < 15 ? K_EMPTY : k < 75 ? K_CODE : K_DATA;
     gen_items(r, s, t.arch, s.kind, size_regime, calls, t.targets.size());
+    // .text with a virtual size of its own (virtual-only, larger than the buffer, smaller than the buffer)
+    if (q.chance(1, 4)) {
+      size_t buf = 0;
+      { std::vector<uint8_t> tmp; for (auto& it : s.items) expected_encoding(t.arch, it, tmp); buf = tmp.size(); }
+      s.set_vsize = true;
+      if (buf == 0) { s.kind = K_VIRT; s.vsize = size_regime == 0 ? q.range(1, 100) : size_regime == 1 ? q.range(1, 5000) : q.range(1, 200000); }
+      else if (q.chance(2, 3)) { s.vsize = buf + q.range(1, size_regime == 0 ? 40 : 3000); if (s.kind == K_DATA) s.kind = K_DATA_VIRT; }
+      else { s.vsize = q.below(buf); if (s.kind == K_DATA) s.kind = K_DATA_SMALLVIRT; }
+    }
     t.secs.push_back(std::move(s));
   }
   bool have_huge = false;
@@ -224,6 +256,7 @@ static TableSpec gen_table(Rng& r, bool allow_jit) {
     s.strlen_size = r.chance(1, 2);
     s.align = pick_alignment(r, align_regime, s.bad_align);
     s.order = pick_order(r, order_regime, common_order);
+    { uint64_t fw = q.below(100); s.flags = fw < 35 ? 0u : fw < 75 ? (1u << q.below(4)) : uint32_t(q.below(16)); }
     static const int kKindW[] = { K_EMPTY, K_EMPTY, K_EMPTY, K_DATA, K_DATA, K_DATA, K_DATA, K_CODE, K_CODE, K_CODE, K_VIRT, K_VIRT, K_VIRT,
                                   K_DATA_VIRT, K_DATA_VIRT, K_DATA_SMALLVIRT, K_RAW, K_RAW };
     s.kind = kKindW[r.below(sizeof(kKindW) / sizeof(kKindW[0]))];
@@ -247,6 +280,13 @@ static TableSpec gen_table(Rng& r, bool allow_jit) {
       SecSpec& s = t.secs[size_t(r.range(1, t.secs.size() - 1))];
       s.kind = K_VIRT; s.items.clear(); s.set_vsize = true; s.vsize = kHuge[r.below(6)];
     }
+  }
+  // the overflowing virtual size may also be the one of .text (side stream; tables that never go to JitRuntime)
+  if (!overflow_table && q.chance(1, 100)) {
+    static const uint64_t kHugeT[] = { ~uint64_t(0), ~uint64_t(0) - 7, uint64_t(1) << 63, ~uint64_t(0) - 65535 };
+    SecSpec& s = t.secs[0];
+    s.kind = K_VIRT; s.items.clear(); s.set_vsize = true; s.vsize = kHugeT[q.below(4)];
+    overflow_table = true;
   }
 
   // Steps: creation in index order, fills either right away or deferred; .addrtab appears wherever the first
@@ -370,12 +410,12 @@ static void build(const TableSpec& t, Built& B, const Environment& env, uint64_t
       size_t before = B.code.section_count();
       Section* out = reinterpret_cast<Section*>(uintptr_t(1));
       Error err;
-      if (s.strlen_size) err = B.code.new_section(Out(out), s.name.c_str(), SIZE_MAX, SectionFlags::kNone, s.align, s.order);
+      if (s.strlen_size) err = B.code.new_section(Out(out), s.name.c_str(), SIZE_MAX, SectionFlags(s.flags), s.align, s.order);
       else {
         // exact-size heap copy without terminator: an over-read of the name is an ASan report
         std::unique_ptr<char[]> nm(new char[s.name.size() ? s.name.size() : 1]);
         memcpy(nm.get(), s.name.data(), s.name.size());
-        err = B.code.new_section(Out(out), nm.get(), s.name.size(), SectionFlags::kNone, s.align, s.order);
+        err = B.code.new_section(Out(out), nm.get(), s.name.size(), SectionFlags(s.flags), s.align, s.order);
       }
       bool refused = err != Error::kOk;
       if (s.bad_name || s.bad_align) {
@@ -392,13 +432,22 @@ static void build(const TableSpec& t, Built& B, const Environment& env, uint64_t
         viol("new-section:valid-section-refused", b);
         continue;
       }
-      if (out->alignment() != (s.align ? s.align : 1u) || out->order() != s.order || out->section_id() != before) {
-        char b[200]; snprintf(b, sizeof b, "asked align=%u order=%d -> section reports align=%u order=%d id=%u (expected id %zu)", s.align, s.order, out->alignment(), out->order(), out->section_id(), before);
+      if (out->alignment() != (s.align ? s.align : 1u) || out->order() != s.order || out->section_id() != before || uint32_t(out->flags()) != s.flags) {
+        char b[240]; snprintf(b, sizeof b, "asked align=%u order=%d flags=0x%x -> section reports align=%u order=%d flags=0x%x id=%u (expected id %zu)", s.align, s.order, s.flags, out->alignment(), out->order(), unsigned(out->flags()), out->section_id(), before);
         viol("new-section:attributes-not-recorded", b);
       }
-      // side observation (not part of C10): is the stored name terminated?
+      C.flags_checked++; C.flags_nonzero += s.flags != 0; C.flag_combo[s.flags & 15u]++;
+      // the name is an attribute as well: stored as given (any bytes, 0..35 of them) and terminated
       C.names_checked++;
-      if (out->_name.str[s.name.size()] != '\0' || memcmp(out->_name.str, s.name.data(), s.name.size()) != 0) C.names_not_terminated++;
+      if (memcmp(out->_name.str, s.name.data(), s.name.size()) != 0) {
+        char b[160]; snprintf(b, sizeof b, "new_section(name of %zu bytes, %s): the section does not hold the name it was given", s.name.size(), s.strlen_size ? "size=SIZE_MAX" : "explicit size");
+        viol("new-section:name-not-recorded", b);
+      }
+      else if (out->_name.str[s.name.size()] != '\0') {
+        C.names_not_terminated++;
+        char b[160]; snprintf(b, sizeof b, "new_section(name of %zu bytes, %s): the stored name is not terminated", s.name.size(), s.strlen_size ? "size=SIZE_MAX" : "explicit size");
+        viol("section-name-unterminated", b);
+      }
       by_spec[size_t(st.idx)] = out;
       SecRT r; r.sec = out; r.spec = st.idx; r.kind = s.kind; B.rt[out->section_id()] = std::move(r);
       continue;
@@ -518,6 +567,61 @@ static std::string describe(const TableSpec& t, const std::vector<SI>& v, bool w
   return o + "]";
 }
 
+// sections_by_order() is documented as "sorted according to section order first, then section id"; flatten() walks it.
+static void check_by_order(Built& B, const char* phase) {
+  auto so = B.code.sections_by_order();
+  C.by_order_sequences++;
+  if (so.size() != B.code.section_count()) { viol("sections-by-order:size-ne-section-count", std::string(phase) + ": sections_by_order() has " + std::to_string(so.size()) + " entries, section_count() is " + std::to_string(B.code.section_count())); return; }
+  for (size_t i = 0; i + 1 < so.size(); i++) {
+    const Section* a = so[i]; const Section* b = so[i + 1];
+    bool sorted = a->order() != b->order() ? a->order() < b->order() : a->section_id() < b->section_id();
+    if (!sorted) {
+      char m[240]; snprintf(m, sizeof m, "%s: sections_by_order()[%zu] is #%u (order %d), [%zu] is #%u (order %d)", phase, i, a->section_id(), a->order(), i + 1, b->section_id(), b->order());
+      viol(a->order() == b->order() ? "sections-by-order:equal-order-not-by-id" : "sections-by-order:not-sorted-by-order", m);
+      return;
+    }
+  }
+}
+
+// section_by_name(): every accepted name finds the first section created under it (any bytes, with and without an
+// explicit size), a name nobody has finds nothing.
+static void check_names(const TableSpec& t, Built& B) {
+  std::vector<std::pair<uint32_t, std::string>> names;   // in id order
+  for (auto& kv : B.rt) {
+    const SecRT& R = kv.second;
+    std::string nm = R.kind == K_ADDRTAB ? std::string(".addrtab") : R.spec == 0 ? std::string(".text") : t.secs[size_t(R.spec)].name;
+    if (nm.size() > Globals::kMaxSectionNameSize) continue;   // wrongly accepted: reported already
+    names.emplace_back(kv.first, nm);
+  }
+  for (size_t i = 0; i < names.size(); i++) {
+    const std::string& nm = names[i].second;
+    uint32_t first = names[i].first;
+    for (size_t j = 0; j < i; j++) if (names[j].second == nm) { first = names[j].first; break; }
+    C.names_looked_up++;
+    C.names_duplicate += first != names[i].first;
+    Section* a = B.code.section_by_name(nm.c_str());
+    std::unique_ptr<char[]> raw(new char[nm.size() ? nm.size() : 1]);
+    memcpy(raw.get(), nm.data(), nm.size());
+    Section* b = B.code.section_by_name(raw.get(), nm.size());
+    if (!a || !b || a->section_id() != first || b->section_id() != first) {
+      char m[240]; snprintf(m, sizeof m, "section_by_name(name of %zu bytes given to section #%u, first given to #%u) -> %s#%d with size=SIZE_MAX, %s#%d with the explicit size", nm.size(), names[i].first, first,
+                            a ? "" : "null ", a ? int(a->section_id()) : -1, b ? "" : "null ", b ? int(b->section_id()) : -1);
+      viol("section-by-name:wrong-section", m);
+    }
+  }
+  // a name that no section has
+  if (!names.empty()) {
+    std::string absent = names[names.size() / 2].second;
+    if (absent.size() < Globals::kMaxSectionNameSize) absent += '\x01'; else absent[0] = char(absent[0] ^ 0x55);
+    bool taken = false;
+    for (auto& n : names) taken |= n.second == absent;
+    if (!taken) {
+      C.names_absent_refused++;
+      if (B.code.section_by_name(absent.data(), absent.size()) != nullptr) viol("section-by-name:absent-name-found", "section_by_name() returned a section for a name of " + std::to_string(absent.size()) + " bytes that no section was given");
+    }
+  }
+}
+
 // Layout verdicts. Returns false if the layout is unusable for the image checks.
 static bool check_layout(const std::vector<SI>& v, u128& end_out, const char* phase) {
   bool ok = true;
@@ -545,6 +649,15 @@ static bool check_layout(const std::vector<SI>& v, u128& end_out, const char* ph
       if (a.order < b.order && u128(a.off) + content > b.off) {
         char m[240]; snprintf(m, sizeof m, "%s: section #%u (order %d) holds [%llu,+%llu) but section #%u (order %d) starts at %llu", phase, a.id, a.order, (ull)a.off, (ull)content, b.id, b.order, (ull)b.off);
         viol("flatten:order-violated", m); ok = false;
+      }
+      // equal order values: the creation sequence decides ("section order has a higher priority than section id")
+      if (a.order == b.order && a.id < b.id) {
+        C.equal_order_pairs++;
+        if (content && b.real0) C.equal_order_nonempty_pairs++;
+        if (u128(a.off) + content > b.off) {
+          char m[240]; snprintf(m, sizeof m, "%s: sections #%u and #%u both have order %d; #%u was created first and holds [%llu,+%llu) but #%u starts at %llu", phase, a.id, b.id, a.order, a.id, (ull)a.off, (ull)content, b.id, (ull)b.off);
+          viol("flatten:equal-order-not-in-creation-sequence", m); ok = false;
+        }
       }
       if (i < j && a.real1 && b.real1) {
         u128 eb = u128(b.off) + b.real1;
@@ -580,6 +693,7 @@ struct Slot { uint64_t img_off; uint64_t target; uint32_t site_sec; size_t site_
 struct Image {
   std::vector<uint8_t> val, cls;   // [0, end)
   uint64_t end = 0, need = 0;
+  uint64_t align_pad = 0;          // bytes between what a section holds and the start of the next one (alignment padding)
   std::vector<Slot> slots;
   std::map<uint32_t, std::vector<uint8_t>> expect;   // per section id: the bytes the section must hold
   bool tab_present = false, tab_last = false;
@@ -591,7 +705,7 @@ static inline uint8_t prefill(size_t i) { return uint8_t(0x80u | ((i * 37u + (i 
 static int32_t rd32(const uint8_t* p) { uint32_t x; memcpy(&x, p, 4); return int32_t(x); }
 
 // Validates the relocated call sites and builds the expected flattened image.
-static bool expected_image(const TableSpec& t, Built& B, const std::vector<SI>& v, uint64_t base, uint64_t end, Image& im) {
+static bool expected_image(const TableSpec& t, Built& B, const std::vector<SI>& v, uint64_t base, uint64_t end, Image& im, bool relocated = true) {
   im.end = end;
   im.val.assign(size_t(end), 0);
   im.cls.assign(size_t(end), CL_GAP);
@@ -613,6 +727,7 @@ static bool expected_image(const TableSpec& t, Built& B, const std::vector<SI>& 
     const SI* s = by_id[st.sec_id];
     if (st.off + size_t(st.len) > sec->buffer_size()) harness_fail("site outside buffer");
     const uint8_t* b = sec->data() + st.off;
+    if (!relocated) { memcpy(expect[st.sec_id].data() + st.off, b, size_t(st.len)); continue; }   // placeholder bytes: nothing to judge yet
     char where[200]; snprintf(where, sizeof where, "%s to 0x%llx at section #%u+%zu (image offset %llu, base 0x%llx): bytes %s", st.is_call ? "call" : "jmp", (ull)st.target, st.sec_id, st.off, (ull)(s->off + st.off), (ull)base, hexstr(b, size_t(st.len)).c_str());
     if (t.arch == A_X86) {
       uint32_t next = uint32_t(base + s->off + st.off + 5);
@@ -649,6 +764,8 @@ static bool expected_image(const TableSpec& t, Built& B, const std::vector<SI>& 
       if (i < s.buf1) { im.cls[p] = CL_SEC; im.val[p] = e[size_t(i)]; } else im.cls[p] = CL_PAD;
     }
     if (s.buf1) need = std::max(need, s.off + s.buf1);
+    uint64_t own = s.kind == K_ADDRTAB ? s.real1 : std::max(s.real0, s.buf1);
+    if (s.real1 > own) im.align_pad += s.real1 - own;
   }
   im.need = need;
   for (const Slot& sl : im.slots) for (int k = 0; k < 8; k++) { im.cls[size_t(sl.img_off) + size_t(k)] = CL_SLOT; }
@@ -676,12 +793,16 @@ static void check_slots(const Image& im, const uint8_t* mem, uint64_t avail, con
 // for them. UBSan (nonnull-attribute, non-recoverable in this build) aborts on that although nothing is read or
 // written; it is outside of what C10 states, so the driver gives such sections a (still empty) buffer before the
 // copy phase and only counts how often that was necessary.
-static void materialize_null_buffers(Built& B) {
+// Since the repair of that finding (5174536) half of the tables keep their null buffers, so the guarded path stays observed.
+static void materialize_null_buffers(Built& B, bool leave_null) {
+  bool any = false;
   for (Section* sec : B.code.sections()) {
     if (sec->_buffer.is_allocated()) continue;
+    if (leave_null) { C.null_buffers_left++; any = true; continue; }
     C.null_buffer_sections++;
     ck(B.code.reserve_buffer(&sec->_buffer, 8), "reserve_buffer");
   }
+  C.null_buffer_tables_left += any;
 }
 
 // Destination carved from one malloc block: [guard][dst .. dst+d)[guard ... end of block)
@@ -705,34 +826,39 @@ struct Dest {
   }
 };
 
-static void flat_copy_probe(Built& B, const Image& im, Dest& D, size_t d, uint32_t flags, int sc, size_t code_size) {
-  C.flat[sc][flags]++;
+static void flat_copy_probe(Built& B, const Image& im, Dest& D, size_t d, uint32_t flags, int sc, size_t code_size, bool relocated = true) {
+  const char* pre = relocated ? "" : " [before relocate_to_base()]";
+  if (relocated) C.flat[sc][flags]++; else C.pre_reloc_probes++;
   D.arm(d);
   Error err = B.code.copy_flattened_data(D.dst, d, CopySectionFlags(flags));
   bool guards = D.disarm_and_check();
   char hdr[160]; snprintf(hdr, sizeof hdr, "copy_flattened_data(dst_size=%zu [%s], flags=%u) -> err=%u; image end=%llu section bytes end=%llu code_size()=%zu", d, kSizeClassNames[sc], flags, unsigned(err), (ull)im.end, (ull)im.need, code_size);
-  if (!guards) viol("copy-flat:write-outside-destination", std::string(hdr) + ": a guard byte next to the destination was modified");
+  std::string H = std::string(hdr) + pre;
+  if (!guards) viol("copy-flat:write-outside-destination", H + ": a guard byte next to the destination was modified");
   if (err != Error::kOk) {
-    C.flat_refused[sc][flags]++;
-    if (d >= im.end) viol("copy-flat:valid-destination-refused", hdr);
+    if (relocated) C.flat_refused[sc][flags]++;
+    if (d >= im.end) viol("copy-flat:valid-destination-refused", H);
     else if (d >= im.need) C.undersized_refused_impl_defined++;
     return;
   }
-  C.flat_accepted[sc][flags]++;
-  if (d < im.need) { viol("copy-flat:too-small-destination-accepted", hdr); }
+  if (relocated) C.flat_accepted[sc][flags]++;
+  if ((flags & 1u) && d >= im.end) C.bytes_align_pad += im.align_pad;
+  if (d < im.need) { viol("copy-flat:too-small-destination-accepted", H); }
   else if (d < im.end) C.undersized_accepted_impl_defined++;
   const uint8_t* p = D.dst;
   size_t lim = size_t(std::min<uint64_t>(d, im.end));
   for (size_t i = 0; i < lim; i++) {
     uint8_t c = im.cls[i], g = p[i];
     if (c == CL_SEC) {
-      if (g != im.val[i]) { char b[120]; snprintf(b, sizeof b, ": byte at image offset %zu is 0x%02x, the section holds 0x%02x there", i, g, im.val[i]); viol("copy-flat:section-byte-wrong", std::string(hdr) + b); break; }
+      if (g != im.val[i]) { char b[120]; snprintf(b, sizeof b, ": byte at image offset %zu is 0x%02x, the section holds 0x%02x there", i, g, im.val[i]); viol("copy-flat:section-byte-wrong", H + b); break; }
     }
     else if (c == CL_PAD || c == CL_GAP) {
-      bool ok = (flags & 1u) && c == CL_PAD ? g == 0 : flags == 0 ? g == prefill(i) : (g == 0 || g == prefill(i));
+      // kPadSectionBuffer: every byte of the image that is not a section byte is padding and has to be zero, the stretch
+      // that aligns the next section included (flatten() hands it to the previous section)
+      bool ok = (flags & 1u) ? g == 0 : flags == 0 ? g == prefill(i) : (g == 0 || g == prefill(i));
       if (!ok) {
-        char b[120]; snprintf(b, sizeof b, ": padding byte at image offset %zu is 0x%02x (destination held 0x%02x before)", i, g, prefill(i));
-        viol((flags & 1u) ? "copy-flat:section-padding-not-zeroed" : "copy-flat:padding-written-unasked", std::string(hdr) + b); break;
+        char b[160]; snprintf(b, sizeof b, ": %s byte at image offset %zu is 0x%02x (destination held 0x%02x before)", c == CL_PAD ? "padding" : "inter-section", i, g, prefill(i));
+        viol((flags & 1u) ? (c == CL_PAD ? "copy-flat:section-padding-not-zeroed" : "copy-flat:inter-section-gap-not-zeroed") : "copy-flat:padding-written-unasked", H + b); break;
       }
     }
   }
@@ -742,11 +868,11 @@ static void flat_copy_probe(Built& B, const Image& im, Dest& D, size_t d, uint32
     bool ok = (flags & 2u) ? g == 0 : g == prefill(i);
     if (!ok) {
       char b[120]; snprintf(b, sizeof b, ": byte at offset %zu beyond the image is 0x%02x (destination held 0x%02x before)", i, g, prefill(i));
-      viol((flags & 2u) ? "copy-flat:target-padding-not-zeroed" : "copy-flat:unasked-write-beyond-image", std::string(hdr) + b); break;
+      viol((flags & 2u) ? "copy-flat:target-padding-not-zeroed" : "copy-flat:unasked-write-beyond-image", H + b); break;
     }
     C.bytes_beyond++;
   }
-  check_slots(im, p, d, hdr);
+  check_slots(im, p, d, H.c_str());
 }
 
 static void section_copy_probes(Built& B, const Image& im, const std::vector<SI>& v, Rng& r) {
@@ -837,6 +963,10 @@ static void run_manual(const TableSpec& t, Rng& r) {
   set_desc(describe(t, v, false));
   if (g_verbose) fprintf(stderr, "table %llu: %s\n", (ull)g_table, g_table_desc.c_str());
   C.arch[t.arch]++;
+  Rng q(r.s ^ 0xD1CE5EED0BADull);   // side stream of the probes added later (r itself draws what it always drew)
+  check_by_order(B, "after-build");
+  check_names(t, B);
+  { const SI& tx = v[0]; if (tx.virt0) { if (tx.virt0 == ~uint64_t(0) || tx.virt0 >= (uint64_t(1) << 62)) C.text_overflow++; else if (!tx.buf0) C.text_virt_only++; else if (tx.virt0 > tx.buf0) C.text_virt_larger++; else C.text_virt_smaller++; } }
 
   size_t est0 = B.code.code_size();
   std::vector<u128> ref_offs; u128 ref_total = 0;
@@ -868,8 +998,24 @@ static void run_manual(const TableSpec& t, Rng& r) {
   Section* tab = B.code.address_table_section();
   if (tab) { C.with_addrtab++; if (B.code.sections_by_order()[B.code.section_count() - 1] != tab) C.addrtab_not_last++; }
 
+  bool leave_null = q.chance(1, 2);
+  // A flattened image may be copied without any relocation (position independent code/data): same byte oracle, the
+  // absolute call/jmp sites still hold their placeholders and the address table has no buffer yet.
+  if (layout_ok && end1 <= (2u << 20) && q.chance(1, 2)) {
+    materialize_null_buffers(B, leave_null);
+    Image im0;
+    if (expected_image(t, B, v, t.base, uint64_t(end1), im0, false)) {
+      C.pre_reloc_tables_with_sites += !B.sites.empty();
+      size_t k0 = size_t(q.range(0, 200));
+      Dest D0(size_t(im0.end) + k0);
+      for (uint32_t flags = 0; flags < 4; flags++) flat_copy_probe(B, im0, D0, size_t(im0.end) + (flags == 2 || q.chance(1, 3) ? k0 : 0), flags, SC_REQ, cs1, false);
+      if (im0.need > 0) flat_copy_probe(B, im0, D0, size_t(im0.need) - 1, uint32_t(q.below(4)), SC_BYTES_M1, cs1, false);
+    }
+  }
+
   CodeHolder::RelocationSummary sum; sum.code_size_reduction = 0;
-  Error rerr = B.code.relocate_to_base(t.base, &sum);
+  bool null_summary = q.chance(1, 4);   // the summary is optional
+  Error rerr = null_summary ? B.code.relocate_to_base(t.base) : B.code.relocate_to_base(t.base, &sum);
   if (rerr != Error::kOk) {
     C.relocate_failed++;
     if (g_verbose || a_trace_fail) fprintf(stderr, "table %llu: relocate_to_base -> err=%u end1=%llu %s\n", (ull)g_table, unsigned(rerr), (ull)uint64_t(end1), g_table_desc.c_str());
@@ -890,6 +1036,7 @@ static void run_manual(const TableSpec& t, Rng& r) {
   if (cs1 < cs2) { char b[160]; snprintf(b, sizeof b, "code_size() after flatten()/before relocate_to_base() = %zu, after relocate_to_base() = %zu", cs1, cs2); viol(eg ? kEmptyGainedKey : "estimate-smaller-than-final-size", b); }
   if (u128(cs1) < end2) { char b[160]; snprintf(b, sizeof b, "code_size() before relocate_to_base() = %zu, the relocated sections end at %llu", cs1, (ull)uint64_t(end2)); viol(eg ? kEmptyGainedKey : "estimate-smaller-than-final-image", b); }
   if (est0 < cs2) C.est0_below_final_code_size++;
+  if (null_summary) { C.reloc_null_summary++; C.reloc_null_summary_shrunk += cs1 != cs2; sum.code_size_reduction = cs1 - cs2; }
   if (cs1 - sum.code_size_reduction != cs2) {
     // JitRuntime::add shrinks its span to (estimate - reduction) and asserts that this equals code_size()
     char b[240]; snprintf(b, sizeof b, "code_size() %zu -> %zu across relocate_to_base() but RelocationSummary::code_size_reduction = %zu (sections really end at %llu -> %llu)", cs1, cs2, sum.code_size_reduction, (ull)uint64_t(end1), (ull)uint64_t(end2));
@@ -901,9 +1048,10 @@ static void run_manual(const TableSpec& t, Rng& r) {
   if (end2 > (6u << 20)) { C.copies_skipped_big++; return; }
   C.max_image = std::max<uint64_t>(C.max_image, uint64_t(end2));
 
-  materialize_null_buffers(B);
+  materialize_null_buffers(B, leave_null);
   Image im;
   if (!expected_image(t, B, v, t.base, uint64_t(end2), im)) return;
+  C.align_pad_tables += im.align_pad != 0;
 
   // destinations
   size_t k = size_t(r.chance(1, 4) ? r.range(1, 5000) : r.range(1, 64));
@@ -923,6 +1071,21 @@ static void run_manual(const TableSpec& t, Rng& r) {
     else for (uint32_t flags = 0; flags < 4; flags++) flat_copy_probe(B, im, D, p.d, flags, p.sc, cs2);
   }
   section_copy_probes(B, im, v, r);
+
+  // Side observation, no verdict (the header says flatten() "should never be called more than once"): does a second
+  // flatten() of the unchanged holder arrive at the same layout?
+  if (q.chance(1, 4) && B.code.flatten() == Error::kOk) {
+    bool same = B.code.code_size() == cs2, empty_only = false;
+    for (const SI& x : v) {
+      bool eq = B.code.section_by_id(x.id)->offset() == x.off && B.code.section_by_id(x.id)->virtual_size() == x.virt1;
+      if (!eq && x.real1 == 0 && B.code.section_by_id(x.id)->virtual_size() == 0) empty_only = true; else same = same && eq;
+    }
+    if (!same) C.reflatten_differs++; else if (empty_only) C.reflatten_empty_moved++; else C.reflatten_identical++;
+    if (!same && (g_verbose || a_trace_fail)) {
+      fprintf(stderr, "table %llu: second flatten() differs: code_size %zu -> %zu; %s\n", (ull)g_table, cs2, B.code.code_size(), g_table_desc.c_str());
+      for (const SI& x : v) { Section* sc = B.code.section_by_id(x.id); if (sc->offset() != x.off || sc->virtual_size() != x.virt1) fprintf(stderr, "   #%u off %llu -> %llu virt %llu -> %llu\n", x.id, (ull)x.off, (ull)sc->offset(), (ull)x.virt1, (ull)sc->virtual_size()); }
+    }
+  }
 }
 
 // --- the JitRuntime::add pipeline (x86-64 host only) --------------------------------------------------------
@@ -948,7 +1111,22 @@ static void run_jit(const TableSpec& t) {
   build(t, B, g_rt->environment(), g_jit_hint);
   std::vector<SI> v = snapshot(B);
   set_desc("JitRuntime::add " + describe(t, v, false));
-  materialize_null_buffers(B);
+  Rng q(a_seed * 0x9E3779B97F4A7C15ull ^ (g_table * 0xC2B2AE3D27D4EB4Full) ^ 0x717A11ull);
+  check_by_order(B, "jit-build");
+  materialize_null_buffers(B, q.chance(1, 2));
+  // The memory the image will land in is made dirty first (a span of the estimated size is filled and released; the
+  // allocator does not clear released memory), so that a byte add() forgets to write does not read as zero by luck.
+  void* dirty_rx = nullptr;
+  {
+    size_t est = B.code.code_size();
+    JitAllocator::Span ds;
+    if (est && est <= (8u << 20) && g_rt->allocator().alloc(Out(ds), est) == Error::kOk) {
+      dirty_rx = ds.rx();
+      ck(g_rt->allocator().write(ds, [](JitAllocator::Span& w) noexcept -> Error { memset(w.rw(), 0xCD, w.size()); return Error::kOk; }), "JitAllocator::write (dirtying)");
+      ck(g_rt->allocator().release(dirty_rx), "JitAllocator::release (dirtying)");
+      C.jit_predirtied++;
+    }
+  }
   void* p = nullptr;
   Error err = g_rt->add(&p, &B.code);
   if (err == Error::kNoCodeGenerated) { bool any = false; for (const SI& s : v) any |= s.real0 != 0; if (any) viol("jit-add:refused-nonempty-code", "JitRuntime::add -> kNoCodeGenerated"); return; }
@@ -959,6 +1137,7 @@ static void run_jit(const TableSpec& t) {
     return;
   }
   C.jit_tables++;
+  C.jit_predirtied_reused += dirty_rx && dirty_rx == p;
   resnapshot(B, v);
   set_desc("JitRuntime::add " + describe(t, v, true));
   u128 end = 0;
@@ -972,9 +1151,33 @@ static void run_jit(const TableSpec& t) {
         uint8_t c = im.cls[i];
         if (c == CL_SEC && mem[i] != im.val[i]) { char b[160]; snprintf(b, sizeof b, "JitRuntime::add: byte at image offset %zu is 0x%02x, the section holds 0x%02x there", i, mem[i], im.val[i]); viol("jit-add:section-byte-wrong", b); break; }
         if (c == CL_PAD && mem[i] != 0) { char b[160]; snprintf(b, sizeof b, "JitRuntime::add: padding byte at image offset %zu is 0x%02x", i, mem[i]); viol("jit-add:padding-not-zeroed", b); break; }
+        if (c == CL_GAP && mem[i] != 0) { char b[160]; snprintf(b, sizeof b, "JitRuntime::add: byte at image offset %zu between two sections is 0x%02x", i, mem[i]); viol("jit-add:inter-section-gap-not-zeroed", b); break; }
       }
       C.bytes_jit += im.end;
+      C.jit_align_pad_bytes += im.align_pad;
       check_slots(im, mem, im.end, "JitRuntime::add");
+
+      // The image has to stay inside the span that add() keeps for it: the span is shrunk to the final code size and
+      // whatever lies behind it belongs to the allocator again.
+      JitAllocator::Span sp;
+      Error qe = g_rt->allocator().query(Out(sp), p);
+      if (qe != Error::kOk || sp.rx() != p) { char b[160]; snprintf(b, sizeof b, "JitAllocator::query(pointer returned by add()) -> err=%u rx=%p, add() returned %p", unsigned(qe), sp.rx(), p); viol("jit-add:returned-pointer-not-a-span", b); }
+      else {
+        C.jit_span_queried++;
+        size_t est = 0; { std::vector<u128> ro; u128 rt_ = 0; std::vector<SI> v0 = v; if (ref_layout(v0, ro, rt_)) est = size_t(rt_); }
+        if (est > im.end) C.jit_shrunk_spans++;
+        if (sp.size() < im.end) { char b[200]; snprintf(b, sizeof b, "JitRuntime::add: the image ends at %llu but the span kept for it has %zu bytes (code_size() = %zu)", (ull)im.end, sp.size(), B.code.code_size()); viol("jit-add:span-smaller-than-image", b); }
+        // memory handed out next must not be part of the image, and the image must survive it being written
+        JitAllocator::Span s2;
+        if (g_rt->allocator().alloc(Out(s2), size_t(q.range(1, 256))) == Error::kOk) {
+          C.jit_small_allocs++;
+          uintptr_t a0 = uintptr_t(p), a1 = a0 + size_t(im.end), b0 = uintptr_t(s2.rx()), b1 = b0 + s2.size();
+          if (b0 < a1 && a0 < b1) { char b[200]; snprintf(b, sizeof b, "JitRuntime::add: image [%p,+%llu) and the next allocation [%p,+%zu) intersect", p, (ull)im.end, s2.rx(), s2.size()); viol("jit-add:image-tail-handed-out-again", b); }
+          ck(g_rt->allocator().write(s2, [](JitAllocator::Span& w) noexcept -> Error { memset(w.rw(), 0xEE, w.size()); return Error::kOk; }), "JitAllocator::write (neighbour)");
+          for (size_t i = 0; i < size_t(im.end); i++) if (im.cls[i] == CL_SEC && mem[i] != im.val[i]) { char b[160]; snprintf(b, sizeof b, "JitRuntime::add: byte at image offset %zu changed to 0x%02x when the next allocation was written", i, mem[i]); viol("jit-add:image-tail-handed-out-again", b); break; }
+          ck(g_rt->allocator().release(s2.rx()), "JitAllocator::release (neighbour)");
+        }
+      }
     }
   }
   g_rt->release(p);
@@ -1028,6 +1231,17 @@ int main(int argc, char** argv) {
   jnum("undersized_accepted_impl_defined", C.undersized_accepted_impl_defined); jnum("undersized_refused_impl_defined", C.undersized_refused_impl_defined);
   jnum("bytes_section", C.bytes_section); jnum("bytes_padding", C.bytes_padding); jnum("bytes_beyond", C.bytes_beyond); jnum("bytes_slot", C.bytes_slot); jnum("bytes_jit", C.bytes_jit);
   jnum("canary_checks", C.canary_checks); jnum("null_buffer_sections", C.null_buffer_sections); jnum("max_sections", C.max_sections); jnum("max_image", C.max_image);
+  jnum("text_virt_only", C.text_virt_only); jnum("text_virt_larger", C.text_virt_larger); jnum("text_virt_smaller", C.text_virt_smaller); jnum("text_overflow", C.text_overflow);
+  jnum("flags_checked", C.flags_checked); jnum("flags_nonzero", C.flags_nonzero);
+  printf("\"flag_combo\":["); for (int i = 0; i < 16; i++) printf("%s%llu", i ? "," : "", (ull)C.flag_combo[i]); printf("],");
+  jnum("by_order_sequences", C.by_order_sequences); jnum("equal_order_pairs", C.equal_order_pairs); jnum("equal_order_nonempty_pairs", C.equal_order_nonempty_pairs);
+  jnum("bytes_align_pad", C.bytes_align_pad); jnum("align_pad_tables", C.align_pad_tables);
+  jnum("pre_reloc_probes", C.pre_reloc_probes); jnum("pre_reloc_tables_with_sites", C.pre_reloc_tables_with_sites); jnum("reloc_null_summary", C.reloc_null_summary); jnum("reloc_null_summary_shrunk", C.reloc_null_summary_shrunk);
+  jnum("null_buffers_left", C.null_buffers_left); jnum("null_buffer_tables_left", C.null_buffer_tables_left);
+  jnum("jit_span_queried", C.jit_span_queried); jnum("jit_predirtied", C.jit_predirtied); jnum("jit_predirtied_reused", C.jit_predirtied_reused); jnum("jit_small_allocs", C.jit_small_allocs);
+  jnum("jit_align_pad_bytes", C.jit_align_pad_bytes); jnum("jit_shrunk_spans", C.jit_shrunk_spans);
+  jnum("names_looked_up", C.names_looked_up); jnum("names_duplicate", C.names_duplicate); jnum("names_absent_refused", C.names_absent_refused);
+  jnum("reflatten_identical", C.reflatten_identical); jnum("reflatten_empty_moved", C.reflatten_empty_moved); jnum("reflatten_differs", C.reflatten_differs);
   printf("\"flat\":{");
   for (int s = 0; s < SC_COUNT; s++) {
     printf("%s\"%s\":{\"probes\":[%llu,%llu,%llu,%llu],\"accepted\":[%llu,%llu,%llu,%llu],\"refused\":[%llu,%llu,%llu,%llu]}", s ? "," : "", kSizeClassNames[s],
